@@ -30,7 +30,7 @@ from typing import Dict, List, Optional, Set, Tuple
 from ..core import AnalysisError, Func, Repo, dotted, norm, parents
 from ..cfg import CFG
 from ..report import Check
-from ..util import call_name, calls_in, const_str, values_of, loop_exits
+from ..util import call_name, calls_in, const_str, values_of, loop_exits, is_report_call
 
 FH = 'pydoctor.epydoc2stan.FieldHandler'
 EPY = 'pydoctor.epydoc.markup.epytext'
@@ -725,7 +725,7 @@ def _extract_fields_covers(repo: Repo) -> bool:
             sites.append(f.name)
     ef = repo.funcs.get('pydoctor.epydoc2stan.extract_fields')
     reports_missing = ef is not None and any(isinstance(n, ast.If) and 'is None' in norm(n.test) and
-                                              any(isinstance(c, ast.Call) and call_name(c) == 'report' for st in n.body for c in ast.walk(st))
+                                              any(is_report_call(repo, c) for st in n.body for c in ast.walk(st))
                                               for n in ef.walk())
     return 'visit_Module' in sites and 'visit_ClassDef' in sites and reports_missing
 
@@ -759,7 +759,7 @@ def check_r09_16(repo: Repo, chk: Check) -> None:
             derived = {t2.id for s2 in f.walk() if isinstance(s2, ast.Assign) and base in norm(s2.value) for t2 in s2.targets if isinstance(t2, ast.Name)}
             reports = [i for i in f.walk() if isinstance(i, ast.If) and cfg.before(i, a) and
                        (base in norm(i.test) or any(isinstance(x, ast.Name) and x.id in derived for x in ast.walk(i.test))) and
-                       any(isinstance(c, ast.Call) and call_name(c) == 'report' for st in i.body for c in ast.walk(st))]
+                       any(is_report_call(repo, c) for st in i.body for c in ast.walk(st))]
             ok = bool(reports)
             chk.ob('R09.16', f'{f.qn} :: a second field for `{slot}` is reported before it replaces the first', ok,
                    f'`if {norm(reports[0].test)[:50]}: ...report(...)` precedes the store' if ok else
@@ -798,7 +798,7 @@ def check_r09_16(repo: Repo, chk: Check) -> None:
         attr = a.targets[0].attr  # type: ignore[attr-defined]
         reports = [i for i in ef.walk() if isinstance(i, ast.If) and cfe.before(i, a) and
                    any(isinstance(x, ast.Attribute) and x.attr == attr for x in ast.walk(i.test)) and
-                   any(isinstance(c, ast.Call) and call_name(c) == 'report' for st in i.body for c in ast.walk(st))]
+                   any(is_report_call(repo, c) for st in i.body for c in ast.walk(st))]
         ok = bool(reports)
         chk.ob('R09.16', f'{ef.qn} :: a second field for the `{attr}` of an attribute is reported before it replaces the first', ok,
                f'`if {norm(reports[0].test)[:50]}: ...report(...)` precedes the store' if ok else
